@@ -265,6 +265,7 @@ class C04(SystematicMixin, E2ECheck):
     quick_examples = 24000
     thorough_examples = 600000
     profile = {
+        'rejects': True,
         'latency': True,
         'limits': 'ones', 'ntransfers': (1, 4),
         'subs': {'max': 2, 'reenter': True, 'raise_done': True,
@@ -402,7 +403,7 @@ class C03(SystematicMixin, E2ECheck):
                         if s != 's3.abort_multipart_upload']
         + ['stream.read'],
         'fault_excs': ['injected', 'injected', 'oserror', 'retryable:1',
-                       'brokenpipe'],
+                       'brokenpipe', 'valueerror'],
         'min_faults': 1, 'max_faults': 2, 'cancels': 1,
         'ends': ['shutdown'],
     }
@@ -810,6 +811,7 @@ class C18(E2ECheck):
     quick_examples = 20000
     thorough_examples = 250000
     profile = {
+        'rejects': True,
         'latency': True,
         'ntransfers': (2, 4), 'subs': {'max': 1, 'size': True},
         'body_scripts': True, 'stream_scripts': True,
